@@ -107,6 +107,8 @@ type c08Run struct {
 	release chan struct{} // closed by the harness once the call has returned: wind everything down
 
 	upChunks, downChunks int
+	noContinue           bool // the peer never answers "100 Continue": the client sends the body when its
+	// ExpectContinueTimeout is over
 	peerDriven           bool // the client reads the response body itself (auto-read): the peer paces
 	// the download and its "sent" events stand for the caller's "got" events
 	failFirst            int // number of initial attempts the peer makes fail
@@ -430,6 +432,7 @@ func (p *c08H1Peer) serve(c net.Conn) {
 		}
 		path := parts[1]
 		chunked := false
+		expect := false
 		clen := 0
 		for {
 			h, err := br.ReadString('\n')
@@ -446,6 +449,9 @@ func (p *c08H1Peer) serve(c net.Conn) {
 			}
 			if strings.HasPrefix(lh, "content-length:") {
 				clen, _ = strconv.Atoi(strings.TrimSpace(h[len("content-length:"):]))
+			}
+			if strings.HasPrefix(lh, "expect:") && strings.Contains(lh, "100-continue") {
+				expect = true
 			}
 		}
 		switch {
@@ -474,8 +480,14 @@ func (p *c08H1Peer) serve(c net.Conn) {
 		}
 		attempt := int(atomic.AddInt32(&r.attemptsSeen, 1)) - 1
 		if r.hit("wrote", "wroteHdr", true) {
+			// (with "Expect: 100-continue" the client is now holding its body back, waiting for us)
 			r.stall(nil)
 			return
+		}
+		if expect && !r.noContinue {
+			if _, err := io.WriteString(c, "HTTP/1.1 100 Continue\r\n\r\n"); err != nil {
+				return
+			}
 		}
 		if chunked {
 			for i := 0; ; i++ {
